@@ -915,3 +915,7 @@ A(M("c16e-size-cap", "C16", C, "            for permutation in itertools.permuta
 # a consumer outside common.py edits a cached answer in place (C16-g of round 3 is the stored instance; these are the twins)
 A(M("c16e-consumer-sorts-list", ["C16", "C12"], "tertiary.py", "        for dot_bracket in self.bpseq.all_dot_brackets:\n", "        alternatives = self.bpseq.all_dot_brackets\n        alternatives.sort(key=lambda db: db.structure)\n        for dot_bracket in alternatives:\n", ["list-handed-out", "foreign-write"]))
 A(M("c16e-consumer-copy-silent", ["C16", "C12", "C14"], "tertiary.py", "        for dot_bracket in self.bpseq.all_dot_brackets:\n", "        alternatives = list(self.bpseq.all_dot_brackets)\n        alternatives.reverse()\n        alternatives.reverse()\n        for dot_bracket in alternatives:\n", kind="silent"))
+
+from mutants_r5_w2 import E as _R5_W2  # noqa: E402
+
+MUTANTS.extend(_R5_W2)
